@@ -639,6 +639,26 @@ func TestC12(t *testing.T) {
 					inputs = append(inputs, []time.Duration{a})
 				}
 			}
+			// both notations at once (a script hard-coding hist[...] and a user adding -buckets): the bounds are those
+			// of ONE of the two specifications (today -buckets wins), never a mixture of both
+			if si == 0 && len(specs) > 1 {
+				other := vegeta.Buckets{0, 3 * time.Millisecond, 9 * time.Second}
+				otherText := "[3ms, 9s]"
+				for _, pair := range [][2]string{{"hist" + sp.text, otherText}, {"hist" + otherText, sp.text}} {
+					R.Eval(1)
+					out, err := c12Report(R, dir, id, pair[0], pair[1], all)
+					ctx := map[string]any{"entry": "report hist[spec] + -buckets", "type": pair[0], "buckets": pair[1], "latencies": show(all)}
+					if err != nil {
+						emit([]c12Bad{{"report:both-notations:error", err.Error()}}, ctx)
+						continue
+					}
+					okA := len(c12CheckText("x", out, want, c12RefCounts(want, all))) == 0
+					okB := len(c12CheckText("x", out, other, c12RefCounts(other, all))) == 0
+					if !okA && !okB {
+						emit([]c12Bad{{"report:both-notations:bounds-of-neither-specification", ev.Trunc(out, 400)}}, ctx)
+					}
+				}
+			}
 			for _, lats := range inputs {
 				wantCounts := c12RefCounts(want, lats)
 				for _, md := range modes {
